@@ -27,6 +27,13 @@ SizeCases ==
     \cup { MkF(<<>>, <<Fdf("a", 0, F64), Fdf("b", 1, U(w))>>, <<>>) : w \in {1, 8} }
     \cup { MkF(<<>>, <<Fdf("a", 0, U(64))>>, <<>>), MkF(<<>>, <<Fdf("a", 0, F64)>>, <<>>),
            MkF(<<>>, <<Fdf("b", 5, U(60)), Fdf("a", 2, U(5))>>, <<>>) }
+(* the whole payload is one array of 1-bit elements (plain, signed, enum, struct of one bit, nested) around and far beyond 64 *)
+BitStruct == <<[name |-> "Sin", fields |-> <<Fdf("p", 0, U(1))>>]>>
+ArrayCases ==
+    { MkF(<<>>, <<Fdf("a", 0, Arr(U(1), n))>>, <<>>) : n \in {63, 64, 65, 100, 200} }
+    \cup { MkF(<<>>, <<Fdf("a", 0, Arr(I(1), 100))>>, <<>>), MkF(<<>>, <<Fdf("a", 0, Arr(Arr(U(1), 80), 1))>>, <<>>),
+            MkF(<<>>, <<Fdf("a", 0, Arr(En("Ew"), 70))>>, <<EnumW(1)>>), MkF(BitStruct, <<Fdf("a", 0, Arr(St("Sin"), 66))>>, <<>>),
+            MkF(<<>>, <<Fdf("a", 0, Arr(U(2), 33))>>, <<>>), MkF(<<>>, <<Fdf("a", 0, Arr(U(8), 9))>>, <<>>) }
 VarT == { Str, Dyn(U(8)), Opt(U(8)), Opt(U(1)), Dyn(St("Sin")) }
 VarCases ==
     { MkF(Sin(<<Fdf("p", 0, U(8))>>), <<Fdf("a", 0, t), Fdf("b", 1, U(8))>>, <<>>) : t \in VarT }
@@ -34,7 +41,7 @@ VarCases ==
     \cup { MkF(Sin(<<Fdf("p", 0, U(8))>>), <<Fdf("a", 0, U(8)), Fdf("b", 1, t), Fdf("c", 2, U(8))>>, <<>>) : t \in VarT }
     \cup { MkF(Sin(<<Fdf("p", 0, U(8)), Fdf("q", 1, t)>>), <<Fdf("a", 0, U(8)), Fdf("b", 1, St("Sin"))>>, <<>>) : t \in VarT \ {Dyn(St("Sin"))} }
     \cup { MkF(Sin(<<Fdf("p", 0, U(8))>>), <<Fdf("a", 0, Arr(Opt(U(3)), 2))>>, <<>>) }
-FitCases == SizeCases \cup VarCases
+FitCases == SizeCases \cup VarCases \cup ArrayCases
 
 VARIABLES stage, S
 vars == <<stage, S>>
